@@ -347,6 +347,32 @@ func genValid(p *prng.R) validAddr {
 	return v
 }
 
+// letters whose case mapping interacts with normalisation (precomposed forms with or without a
+// cased counterpart, singleton decompositions, special casing), in both cases, plus combining marks.
+var specialLetters = []string{"İ", "I", "i", "ı", "̇", "J", "j", "ǰ", "̌", "ẞ", "ß", "Ǆ", "ǅ", "ǆ", "ΐ", "ΰ", "ι", "̈", "́", "ͅ", "ᾳ", "ᾼ", "Α", "α",
+	"K", "k", "K", "Å", "Å", "å", "̊", "Ω", "Ω", "ω", "Ḋ", "ḋ", "D", "d", "ẛ", "ſ", "ﬁ", "Ǎ", "ǎ", "A", "a", "é", "É", "e", "E"}
+
+func genSpecial(p *prng.R) string {
+	part := func() string {
+		var sb strings.Builder
+		for sb.Len() == 0 || unicode.Is(unicode.Mn, []rune(sb.String())[0]) {
+			sb.Reset()
+			n := p.Range(1, 4)
+			for i := 0; i < n; i++ {
+				sb.WriteString(prng.Pick(p, specialLetters))
+			}
+		}
+		return sb.String()
+	}
+	dom := part()
+	if p.Bool() {
+		dom += "." + string(prng.Pick(p, asciiLower)) + string(prng.Pick(p, asciiLower))
+	} else {
+		dom = "example." + dom
+	}
+	return part() + "@" + dom
+}
+
 // caseFlip upper-cases runes selected by the generator when the simple mapping round-trips.
 func caseFlip(p *prng.R, s string, all bool) string {
 	rs := []rune(s)
@@ -534,6 +560,41 @@ func TestVerif(t *testing.T) {
 							fail("quote-roundtrip", witnessFeature(s), fmt.Sprintf("UnquoteMbox(QuoteMbox(%q)=%q) = %q, %v", s, q, back, err), map[string]any{"s": s, "quoted": q, "back": back})
 						}
 						law("quote-roundtrip", feat)
+					}
+					continue
+				}
+
+				// ---------- normalisation variants of addresses built from case-sensitive letters ----------
+				// NFC(x) and NFD(x) are Unicode-normalisation variants of one address by definition
+				// (no case mapping involved), so they must share one key whatever letters x contains.
+				if i%8 == 1 {
+					x := genSpecial(p)
+					if address.Valid(x) {
+						c, d := norm.NFC.String(x), norm.NFD.String(x)
+						kc, e1 := address.ForLookup(c)
+						kd, e2 := address.ForLookup(d)
+						kx, e3 := address.ForLookup(x)
+						if e1 != nil || e2 != nil || e3 != nil || kc != kd || kc != kx {
+							fail("nf-variants-one-key", witnessFeature(x), fmt.Sprintf("NFC and NFD spellings of %q have keys %q (err %v) and %q (err %v); as given: %q (err %v)", x, kc, e1, kd, e2, kx, e3), map[string]any{"x": x, "nfc": c, "nfd": d, "key_nfc": kc, "key_nfd": kd, "key_x": kx})
+						}
+						if !address.Equal(c, d) || !address.Equal(d, c) {
+							fail("nf-variants-equal", witnessFeature(x), fmt.Sprintf("Equal(NFC, NFD) is false for %q", x), map[string]any{"x": x})
+						}
+						cc, e4 := address.CleanDomain(c)
+						cd, e5 := address.CleanDomain(d)
+						_, dc, _ := address.Split(cc)
+						_, dd, _ := address.Split(cd)
+						if e4 != nil || e5 != nil || dc != dd {
+							fail("nf-variants-cleandomain", witnessFeature(x), fmt.Sprintf("CleanDomain of the NFC and NFD spellings of %q give domains %q and %q (err %v, %v)", x, dc, dd, e4, e5), map[string]any{"x": x})
+						}
+						_, xdom, _ := address.Split(x)
+						k1, _ := dns.ForLookup(norm.NFC.String(xdom))
+						k2, _ := dns.ForLookup(norm.NFD.String(xdom))
+						if k1 != k2 || !dns.Equal(norm.NFC.String(xdom), norm.NFD.String(xdom)) {
+							fail("dns-nf-variants-one-key", witnessFeature(xdom), fmt.Sprintf("dns.ForLookup of the NFC and NFD spellings of %q: %q vs %q", xdom, k1, k2), map[string]any{"domain": xdom})
+						}
+						law("nf-variants", "special")
+						r.Count("special_letter_addresses", 1)
 					}
 					continue
 				}
